@@ -45,6 +45,10 @@ func (h *EthHeader) Hash() (hash common.Hash) {
 }
 
 func (h Header) ValidateBasic() error {
+	// Verify that the logs bloom fits, ToEthHeader and ToVerifyHeader panic otherwise
+	if len(h.Bloom) > types.BloomByteLength {
+		return fmt.Errorf("invalid bloom length: have %d, max %d", len(h.Bloom), types.BloomByteLength)
+	}
 	// Verify that the gas limit is <= 2^63-1
 	cap := uint64(0x7fffffffffffffff)
 	if h.GasLimit > cap {
